@@ -862,7 +862,8 @@ Lemma script_runs_polls s :
   let os := fst (run_polls c t_end (polls cs [] 0) (skipn (8 + 3 * n) s)) in
   [7] ++ flat_map (enc_call os) cs ++
   [Z.of_nat (length (flat_map (fun po => d_bits (o_dec (snd po))) os))] ++
-  flat_map (fun po => d_bits (o_dec (snd po))) os.
+  flat_map (fun po => d_bits (o_dec (snd po))) os ++
+  [Z.of_nat (length cs)] ++ flat_map (fun p => firstn 8 (enc_call os p)) cs.
 Proof.
   unfold run_script. cbn zeta.
   destruct (run_polls _ _ _ _) as [os rest]. reflexivity.
